@@ -247,6 +247,7 @@ func universe(all []*Item) []string {
 				add("*." + r.Owner)             // the literal asterisk name
 				add("r.nx." + r.Owner)          // two labels below the wildcard
 				add("c+d." + trimRoot(r.Owner)) // a non-wild-safe label below the wildcard
+				add("c+d.nx." + r.Owner)        // a non-wild-safe label two levels below it
 			}
 			for _, t := range r.Targets {
 				add(t)
